@@ -214,13 +214,13 @@ TEXT = {
     },
     "C09": {
         "engine": "rrtk-mc c09-link-bfs + c09-read-values + c09-unobserved-bursts; thorough: harness/sr_terminals (stateright BFS cross-check)",
-        "technique": "explicit-state BFS over all reachable link configurations of 2..6 (thorough 8) real terminals x all connect/disconnect actions; exhaustive presence x timestamp-order enumeration for the read clause; all periodic operation bursts (words of length <= 2 over 15 operations, 255..513 operations, thorough 2^16+-1) without intermediate reads against a link + slot model",
-        "text": "Every reachable matching of n<=6 (8) terminals x every connect(i,j)/disconnect(i) is executed on real "
+        "technique": "explicit-state BFS over all reachable link configurations of 2..6 (thorough 10) real terminals x all connect/disconnect actions; exhaustive presence x timestamp-order enumeration for the read clause; all periodic operation bursts (words of length <= 2 over 15 operations, 255..513 operations, thorough 2^16+-1) without intermediate reads against a link + slot model",
+        "text": "Every reachable matching of n<=6 (10) terminals x every connect(i,j)/disconnect(i) is executed on real "
                 "terminals (state rebuilt by witness replay) and compared with the matching model; no panic, symmetric "
                 "links, exact post-conditions. Read clause: all 16 presence patterns x all weak timestamp orders x "
                 "linked/unlinked; 5400 long unobserved operation bursts. Complete for the stated bounds; link logic has no data dependence so small n is "
                 "representative. Plus twin / bystander runs: a second live object of the same kind used alternately must not change anything.",
         "note": "Trusted: rustc, the harness decoding of partners from state means (own states are distinct powers of two). "
-                "Bound: n<=6 quick, n<=8 thorough; values from a fixed dyadic alphabet.",
+                "Bound: n<=6 quick, n<=10 thorough; values from a fixed dyadic alphabet.",
     },
 }
